@@ -280,3 +280,22 @@ PROPS["C03"] = {
     "assumptions": ["declared types are read from the runtime's own lowered definitions (ProgramDef.vars / Param.type_id + TypeRegistry)"],
     "design_ref": "DESIGN.md section 3, C03",
 }
+
+PROPS["C05"] = {
+    "engine": "c05",
+    "level": "exploration",
+    "technique": "cross-process / cross-thread / re-run digest equality monitor: the same job is compiled and executed in several OS processes (distinct hash seeds, ASLR, environment size, start time), on two threads each, twice in a row",
+    "quick": {"shards": 4, "budget_s": 25, "watchdog_s": 900, "parallel": 4},
+    "thorough": {"shards": 4, "budget_s": 420, "watchdog_s": 3600, "parallel": 4},
+    "floor": {"quick": 200, "thorough": 5000},
+    "require_counters": {"quick": {"job_executions_compared": 5000, "jobs_with_20_or_more_names": 100, "child_processes_completed": 100},
+                         "thorough": {"job_executions_compared": 200000}},
+    "rule": "job = (sources, input+clock trace): programs with 12-21 shuffled names of every kind (enums, structs, functions, FBs with strings, interfaces + classes with methods, 3 tasks incl. an "
+            "event task), the C11 seed programs, and random generator programs (core and extended); 4-6 cycles. Each job runs in P processes (4 quick / 16 thorough) x {run 1, run 2, second "
+            "thread}. distinct = hash of the sources; non-trivial = compiled, >= 2 processes produced output, all runs compared",
+    "level_text": "For every job all P x 3 executions must produce the same STBC byte hash+length and the same per-cycle digest sequence of (storage walk by name path, drained runtime events, "
+                  "output image, error). std's RandomState differs per process and per thread, so any HashMap-ordered emission or iteration that reaches an observable would differ.",
+    "level_note": "Only nondeterminism sources that vary between processes/threads on one machine (hash seeds, ASLR, thread, wall clock, environment size) are exercised.",
+    "assumptions": ["digests use FNV over canonical renderings; instance ids are not part of the rendering"],
+    "design_ref": "DESIGN.md section 3, C05",
+}
